@@ -111,8 +111,20 @@ func Instrument(dir string, env []string) (*Stats, error) {
 					case *ast.IncDecStmt:
 						mark(s.X)
 					case *ast.UnaryExpr:
-						if s.Op == token.AND {
-							// address taken: conservatively not treated as a write
+						// address taken: in general not treated as a write, but a
+						// pointer to a package-level array is a mutable alias
+						if s.Op == token.AND && isArrayVar(p.TypesInfo, s.X) {
+							mark(s.X)
+						}
+					case *ast.SliceExpr:
+						// buf := scratch[:] - a slice of a package-level array is a
+						// mutable alias of it (a scratch buffer shared by all callers)
+						if isArrayVar(p.TypesInfo, s.X) {
+							mark(s.X)
+						}
+					case *ast.CallExpr:
+						for _, a := range filledArgs(s) {
+							mark(a)
 						}
 					}
 					return true
@@ -165,6 +177,54 @@ func Instrument(dir string, env []string) (*Stats, error) {
 
 func isPkgLevel(v *types.Var) bool {
 	return v.Pkg() != nil && v.Parent() == v.Pkg().Scope() && !v.IsField()
+}
+
+// filledArgs returns the sliced operands that a call fills: a buffer handed
+// to copy(buf[:], ..), append(buf[:0], ..), binary.*.PutUint64(buf[:], ..),
+// strconv.AppendInt(buf[:0], ..), io.ReadFull(r, buf[:]).
+func filledArgs(c *ast.CallExpr) []ast.Expr {
+	name := ""
+	switch f := c.Fun.(type) {
+	case *ast.Ident:
+		name = f.Name
+	case *ast.SelectorExpr:
+		name = f.Sel.Name
+	}
+	builtin := name == "copy" || name == "append"
+	if !builtin && !strings.HasPrefix(name, "Put") && !strings.HasPrefix(name, "Append") && !strings.HasPrefix(name, "Read") {
+		return nil
+	}
+	var out []ast.Expr
+	for i, a := range c.Args {
+		if builtin && i > 0 {
+			break
+		}
+		if sl, ok := a.(*ast.SliceExpr); ok {
+			out = append(out, sl.X)
+		}
+	}
+	return out
+}
+
+// isArrayVar: e is (a parenthesised) identifier of array type.
+func isArrayVar(info *types.Info, e ast.Expr) bool {
+	for {
+		pe, ok := e.(*ast.ParenExpr)
+		if !ok {
+			break
+		}
+		e = pe.X
+	}
+	id, ok := e.(*ast.Ident)
+	if !ok {
+		return false
+	}
+	v, ok := info.Uses[id].(*types.Var)
+	if !ok {
+		return false
+	}
+	_, isArr := v.Type().Underlying().(*types.Array)
+	return isArr
 }
 
 func rootIdent(e ast.Expr) *ast.Ident {
@@ -309,10 +369,34 @@ func instrumentFile(p *packages.Package, f *ast.File, rel, modPath string, writt
 			exprs = append(exprs, l)
 		}
 		found := ""
+		foundWrite := false
 		for _, e := range exprs {
 			ast.Inspect(e, func(n ast.Node) bool {
 				if _, isLit := n.(*ast.FuncLit); isLit {
 					return false
+				}
+				switch x := n.(type) {
+				case *ast.SliceExpr:
+					if isArrayVar(info, x.X) {
+						if obj, ok3 := info.Uses[rootIdent(x.X)].(*types.Var); ok3 && written[obj] {
+							foundWrite = true
+						}
+					}
+				case *ast.UnaryExpr:
+					if x.Op == token.AND && isArrayVar(info, x.X) {
+						if obj, ok3 := info.Uses[rootIdent(x.X)].(*types.Var); ok3 && written[obj] {
+							foundWrite = true
+						}
+					}
+				}
+				if c, isCall := n.(*ast.CallExpr); isCall {
+					for _, a := range filledArgs(c) {
+						if rid := rootIdent(a); rid != nil {
+							if obj, ok3 := info.Uses[rid].(*types.Var); ok3 && written[obj] {
+								foundWrite = true
+							}
+						}
+					}
 				}
 				if idn, ok2 := n.(*ast.Ident); ok2 {
 					if obj, ok3 := info.Uses[idn].(*types.Var); ok3 && written[obj] {
@@ -323,7 +407,7 @@ func instrumentFile(p *packages.Package, f *ast.File, rel, modPath string, writt
 			})
 		}
 		if found != "" {
-			return found, false, true
+			return found, foundWrite, true
 		}
 		return "", false, false
 	}
